@@ -129,6 +129,16 @@ Theorem C20_admission_iff : forall m accs a,
 Proof. exact admission_eq. Qed.
 Print Assumptions C20_admission_iff.
 
+(** "Currently accepting": after any sequence of updates of the accepting-orders, user-settlement
+    and accepting-commitments flags the same rule holds for the updated configuration. *)
+Theorem C20_admission_after_flag_updates : forall m s accs a (ups : list (bool * bool * bool)),
+  market_wf m -> action_wf a -> create_market m = Some s ->
+  let upd_m := fold_left (fun m' u => let '(ao, us, ac) := u in set_flags m' ao us ac) ups m in
+  let upd_s := fold_left (fun s' u => let '(ao, us, ac) := u in set_flags_stored s' ao us ac) ups s in
+  admits (Some upd_s) accs a = admit_spec true upd_m accs a.
+Proof. exact admission_after_flag_updates. Qed.
+Print Assumptions C20_admission_after_flag_updates.
+
 (** Non-vacuity: a well-formed market with flat and ratio buyer fees, a wildcard and an
     un-normalised commitment attribute; an account that is admitted for a bid paying
     flat + ratio in one coin, refused one unit below, admitted for a commitment. *)
